@@ -392,6 +392,62 @@ pub fn run(ctx: &mut Ctx) {
         }
     });
 
+    // the deprecated alias on VALID records of every content type around 2^14 and the record-length cap
+    ctx.floor("alias.band", 60);
+    ctx.sweep("alias-size-band", 5 * 8 * 2, |ctx, idx| {
+        let mut r = crate::rng::Rng::new(idx ^ 0xA11B);
+        let ct = [0x14u8, 0x15, 0x16, 0x17, 0x18][(idx % 5) as usize];
+        let size = [16383usize, 16384, 16385, 16386, 16500, 16639, 16640, 16641][((idx / 5) % 8) as usize];
+        let variant = idx / 40;
+        let payload: Vec<u8> = match ct {
+            0x14 => vec![1u8; size],
+            0x15 => (0..size / 2).flat_map(|k| [1 + (k % 2) as u8, (k % 200) as u8]).chain(std::iter::repeat(1).take(size % 2)).collect(),
+            0x16 => {
+                if variant == 0 {
+                    // one message filling the record
+                    let mut v = vec![20u8, 0, ((size - 4) >> 8) as u8, (size - 4) as u8];
+                    v.extend(r.bytes(size - 4));
+                    v
+                } else {
+                    // many empty messages (+ a filler message for the odd bytes)
+                    let mut v: Vec<u8> = Vec::new();
+                    while v.len() + 8 <= size {
+                        v.extend_from_slice(&[0, 0, 0, 0]);
+                    }
+                    let rest = size - v.len();
+                    if rest >= 4 {
+                        v.extend_from_slice(&[20, 0, 0, (rest - 4) as u8]);
+                        v.extend(r.bytes(rest - 4));
+                    }
+                    v
+                }
+            }
+            0x17 => r.bytes(size),
+            _ => {
+                let mut v = vec![1u8, ((size - 3 - 16) >> 8) as u8, (size - 3 - 16) as u8];
+                v.extend(r.bytes(size - 3));
+                v
+            }
+        };
+        let mut buf = refenc::record(ct, 0x0303, &payload);
+        buf.extend_from_slice(&[0x16, 3, 3]);
+        #[allow(deprecated)]
+        let a = tls_parser(&buf);
+        let b = parse_tls_plaintext(&buf);
+        ctx.eval();
+        ctx.count("alias.band");
+        ctx.shape(&("alias-band", ct, size, b.is_ok()));
+        let same = match (&a, &b) {
+            (Ok((r1, v1)), Ok((r2, v2))) => veq(v1, v2) && r1.len() == r2.len() && r1.as_ptr() == r2.as_ptr(),
+            (Err(Err::Incomplete(x)), Err(Err::Incomplete(y))) => x == y,
+            (Err(Err::Error(x)), Err(Err::Error(y))) | (Err(Err::Failure(x)), Err(Err::Failure(y))) => x.code == y.code && x.input.len() == y.input.len(),
+            _ => false,
+        };
+        if !same {
+            ctx.violation("c16:tls_parser:differs-from-parse_tls_plaintext".into(), json!({"family": "alias-size-band", "content_type": ct, "payload_len": payload.len(), "alias": classify(&a).show(), "plaintext": classify(&b).show()}));
+        }
+    });
+
     // the deprecated alias must equal parse_tls_plaintext on large inputs as well
     ctx.sweep("alias-large", 24, |ctx, idx| {
         let mut r = crate::rng::Rng::new(idx ^ 0xA11A5);
